@@ -257,7 +257,7 @@ fn main() {
                                 bad = Some("from_stored_parts(accessors(plan)) is not Ok(plan)".to_string());
                                 break 'outer;
                             }
-                            distinct.insert(plan_json(&o.plan).to_string());
+                            distinct.insert(format!("{}|{}|{}", case["minDenom"], case["maxDenom"], plan_json(&o.plan)));
                             first = Some(o.plan);
                         }
                     }
